@@ -21,7 +21,8 @@ ASSUMPTIONS = ["tolerance 1e-8 x scale for recomputed values; sampling clauses a
 TIERS = {"quick": dict(cases=900, shards=8, case_timeout=300, shard_timeout=1500),
          "thorough": dict(cases=9000, shards=16, case_timeout=300, shard_timeout=3400)}
 FLOORS = {"quick": {"direct_values_checked": 1200, "mixed_state_values_checked": 600, "algebra_checks": 1000,
-                    "run_values_recomputed": 800, "result_time_sets_checked": 400},
+                    "run_values_recomputed": 800, "result_time_sets_checked": 400,
+                    "off_grid_times_with_full_default": 20},
           "thorough": {"direct_values_checked": 30000}}
 EIG = {2: [("r", "g"), ("g", "h"), ("u", "d")], 3: [("r", "g", "h")], 4: [("r", "g", "h", "x")]}
 ONE = {("r", "g"): "r", ("g", "h"): "h", ("u", "d"): "d"}
@@ -241,7 +242,7 @@ def w_run(ctx, rng, idx):
         noise = "dephasing"
     nm = {None: None, "dephasing": pulser.NoiseModel(dephasing_rate=0.8, hyperfine_dephasing_rate=0.3),
           "relaxation": pulser.NoiseModel(relaxation_rate=1.0), "depolarizing": pulser.NoiseModel(depolarizing_rate=0.7)}[noise]
-    pool = [0.0, 0.1, 0.25, 0.5, 0.77, 1.0]
+    pool = [0.0, 0.1, 0.25, 0.5, 0.77, 1.0, 0.1234, 0.6180339887]  # the last two fall between the nanoseconds of the grid
     defaults = gen.pick(rng, [[1.0], [0.5, 1.0], [0.0, 0.25, 1.0], "Full" if rng.random() < 0.3 else [0.1, 0.77]])
     own = sorted(rng.sample(pool, rng.randint(1, 3)))
     own2 = sorted(rng.sample(pool, rng.randint(1, 2)))
@@ -253,6 +254,10 @@ def w_run(ctx, rng, idx):
     kw = {"noise_model": nm} if nm is not None else {}
     if modulated:
         kw["with_modulation"] = True
+    rate = gen.pick(rng, [1.0, 1.0, 0.5, 0.2])
+    if rate != 1.0:
+        kw["sampling_rate"] = rate
+    ctx.case["run"]["sampling_rate"] = rate
     with warnings.catch_warnings():
         warnings.simplefilter("ignore")
         try:
@@ -270,7 +275,7 @@ def w_run(ctx, rng, idx):
     from pulser_simulation import QutipEmulator
     with warnings.catch_warnings():
         warnings.simplefilter("ignore")
-        ref_emu = QutipEmulator.from_sequence(seq, with_modulation=modulated)
+        ref_emu = QutipEmulator.from_sequence(seq, with_modulation=modulated, sampling_rate=rate)
     T = ref_emu.total_duration_ns
     ctx.count("runs_with_modulation" if modulated else "runs_without_modulation")
     if res.total_duration != T:
@@ -298,8 +303,20 @@ def w_run(ctx, rng, idx):
         ctx.count("result_time_sets_checked")
         if want is not None:
             want = sorted(float(w) for w in want)
-            ok = len(times) == len(want) and all(abs(a - b) <= tol for a, b in zip(times, want))
-            if not ok:
+            # (the value is stored under the requested time itself, not under a neighbouring step of the solver grid)
+            ok = len(times) == len(want) and all(abs(a - b) <= 1e-9 for a, b in zip(times, want))
+            if any(abs(w * T - round(w * T)) > 1e-6 for w in want):
+                ctx.count("result_time_sets_with_off_grid_times")
+                if defaults == "Full":
+                    ctx.count("off_grid_times_with_full_default")
+            missing = [w for w in want if not any(abs(w - a) <= 1e-9 for a in times)]
+            if missing:
+                # (distinct from the known finding below, where the requested times are all there but further ones too)
+                kind = "own" if o.evaluation_times is not None else "default"
+                ctx.violation("result-times", f"{o.tag} ({kind} evaluation times {want}, defaults {defaults}, sampling rate "
+                              f"{rate}): nothing stored at the requested {missing[:4]}; stored at {[round(t, 5) for t in times][:8]}",
+                              f"result-times-missing:{kind}")
+            elif not ok:
                 kind = "own" if o.evaluation_times is not None else "default"
                 ctx.violation("result-times", f"{o.tag} ({kind} evaluation times {want}, defaults {defaults}): values stored at "
                               f"{[round(t, 4) for t in times][:8]}", f"result-times:{kind}")
